@@ -202,4 +202,6 @@ pub mod ax_number {
     { }
     #[verifier::external_body]
     pub broadcast proof fn axiom_ubig_nonneg(u: UBig) ensures #[trigger] u.v() >= 0 { }
+    #[verifier::external_body]
+    pub broadcast proof fn axiom_q_sign_range(q: Rational) ensures -1 <= #[trigger] q_sign(q) <= 1 { }
 }
